@@ -67,3 +67,7 @@ claim("C18", "bounded-exhaustive enumeration of directory trees x CLI flags, pac
   "Every tree up to the entry bound over 4 names x 5 kinds (plus chunk-boundary file sizes, depth-6 nesting, a sharded directory) is packed with car create (v1/v2, wrap/no-wrap, directory/single source) and extracted from file and from a pipe; trees are compared by names, contents and link targets; the archive has one root equal to `car root` and stored.",
   "Permissions/timestamps not compared; bare file/symlink roots with --no-wrap are outside the domain (no name to extract to).",
   "DESIGN.md 5/C18")
+claim("C19", "bounded-exhaustive enumeration of input archives x sub-commands x flag sets, run with the real car binary; outputs re-checked with the tool's own verifier and compared with reference answers",
+  "Every input archive up to the bound x 22 command/flag combinations (+ get-dag from every start node of a UnixFS DAG) is run through the built car binary; each produced archive must pass car inspect --full and car verify and equal the reference answer (selected blocks in source order, unchanged payload + regenerated index, exact block bytes, scan order, concatenation).",
+  "Two call-site specific known findings (inspect --full on CARv1, concat --version 2) are recorded in KNOWN_FINDINGS.txt; filter goes through the blockstore so its de-dup/identity rules apply.",
+  "DESIGN.md 5/C19")
